@@ -22,14 +22,20 @@ class C25(Check):
         "the model holds valid (all the scheduler ever does), extended histories also derive from "
         "rolled-back states and are judged by a separate sub-oracle; a case is an operation "
         "history; non-trivial = it contains a rollback that invalidates something and a later "
-        "re-derivation"
+        "re-derivation. One case in four is a workflow-level history instead: a chain of 2-4 "
+        "handle-writing tasks (plus consumers) run 2-6 times on one backend under seeded "
+        "schedules while the versions of the handle-writing tasks are edited and reverted; a task "
+        "whose cached result holds a handle state that the lineage model says was rolled back "
+        "must execute again"
     )
     ASSUMPTIONS = ["call hashes of derived states are a function of the parent state, as in the "
                    "scheduler (the call hash covers the incoming handle)"]
     COMPONENTS_REAL = ["RedunBackendDb.advance_handle / rollback_handle / is_valid_handle",
-                       "redun.handle.Handle fork / apply_call"]
+                       "redun.handle.Handle fork / apply_call",
+                       "Scheduler + LocalExecutor + backend (workflow-level part)"]
     COMPONENTS_STUB = ["no scheduler: operations are issued directly in the order a workflow would"]
-    EXPECTED_PROBES = ["rollbacks_invalidating", "rederivations", "merges", "extended_histories"]
+    EXPECTED_PROBES = ["rollbacks_invalidating", "rederivations", "merges", "extended_histories",
+                       "workflow_histories", "reexecuted_because_state_was_rolled_back"]
     QUICK_SECONDS = 25.0
 
     def setup(self) -> None:
@@ -39,6 +45,8 @@ class C25(Check):
     def run_one(self, ch: Choices) -> RunOutcome:
         from simkit.proghandle import VH
 
+        if ch.choice(4, "part") == 3:
+            return self.run_workflow(ch)
         out = RunOutcome()
         extended = ch.choice(4, "extended") == 3
         if extended:
@@ -157,6 +165,103 @@ class C25(Check):
             out.probes.get("rederivations"))
         out.sample = {"ops": ops, "extended": extended,
                       "model": {h[:6]: v for h, v in sorted(valid.items())}}
+        return out
+
+
+    # ------------------------------------------------------------------------------------------
+    # Workflow-level part: "a cached result containing an invalidated handle state is never
+    # replayed" -- histories that edit and revert handle-writing tasks of a chain.
+    # ------------------------------------------------------------------------------------------
+
+    def run_workflow(self, ch: Choices) -> RunOutcome:
+        from simkit import enginea, proglib
+        from simkit.progs import HEADER, RawProgram
+
+        out = RunOutcome()
+        out.probe("workflow_histories")
+        n = 2 + ch.choice(3, "chain-length")         # handle-writing tasks load1..loadn
+        consumers = [k for k in range(1, n + 1) if ch.coin(0.5, "consumer?")]
+
+        def source(vers: list) -> str:
+            L = [HEADER.format(ns="vp"), "from simkit.proghandle import VH\n\n"]
+            for k in range(1, n + 1):
+                L.append(f"@task(version='load{k}-v{vers[k - 1]}')\ndef load{k}(h, x):\n"
+                         f"    hit('load{k}')\n    return h\n\n")
+            L.append("@task(version='use')\ndef use(h, k):\n    hit('use', k)\n"
+                     "    return mix('use', k)\n\n")
+            body = ["    h0 = VH('ha')"]
+            for k in range(1, n + 1):
+                body.append(f"    h{k} = load{k}(h{k - 1}, {k})")
+            items = [f"h{n}"] + [f"use(h{k}, {k})" for k in consumers]
+            body.append(f"    return [{', '.join(items)}]")
+            L.append("@task(version='main')\ndef t0():\n" + "\n".join(body) + "\n")
+            return "".join(L)
+
+        vers = [0] * n
+        prog = RawProgram(source(vers))
+        db = schedsim.fresh_db("handles-wf.db")
+        # model: a state is identified by the versions of the chain prefix that derived it
+        cached: set = set()
+        valid: set = set()
+        history = []
+        nexec = 2 + ch.choice(5, "nexec")
+        w = None
+        with enginea.ProgramSession(prog) as sess:
+            for ex in range(nexec):
+                desc = "initial"
+                if ex > 0:
+                    k = ch.choice(n, "edit-which")
+                    v = ch.choice(3, "edit-version")
+                    desc = f"load{k + 1}: v{vers[k]} -> v{v}"
+                    if v != vers[k]:
+                        out.probe("handle_task_edits")
+                    vers[k] = v
+                    prog = RawProgram(source(vers))
+                    sess.reload(prog)
+                proglib.reset_hits()
+                res = enginea.simulate(ch, prog, db_path=db, session=sess)
+                w = res.world
+                out.steps += w.steps
+                out.digest = (out.digest + w.digest())[-48:]
+                if res.outcome[0] != "v":
+                    out.violate("C25.workflow_runs", f"{res.outcome[0]}",
+                                {"history": history, "error": repr(res.outcome[1])[:200]})
+                    break
+                ran = {name for (name, _a) in proglib.HITS}
+                must, replayed = [], []
+                for k in range(1, n + 1):
+                    key = tuple(vers[:k])
+                    if key in cached and key in valid:
+                        if f"load{k}" not in ran:
+                            replayed.append(k)
+                            continue
+                    else:
+                        must.append(k)
+                    # (re-)executed: everything derived from its input state so far is rolled
+                    # back, then the new state is derived
+                    if f"load{k}" in ran:
+                        pref = tuple(vers[:k - 1])
+                        for st in list(valid):
+                            if len(st) >= k and st[:k - 1] == pref:
+                                valid.discard(st)
+                                out.probe("states_rolled_back")
+                        valid.add(key)
+                        cached.add(key)
+                history.append({"execution": ex, "edit": desc, "versions": list(vers),
+                                "executed": sorted(x for x in ran if x.startswith("load")),
+                                "model_must_execute": [f"load{k}" for k in must]})
+                stale = [k for k in must if f"load{k}" not in ran]
+                if stale:
+                    was_cached = tuple(vers[:stale[0]]) in cached
+                    out.violate("C25.invalid_state_never_replayed",
+                                "replayed-rolled-back-state" if was_cached else "replayed-unknown-state",
+                                {"history": history, "task": f"load{stale[0]}"})
+                    break
+                if any(tuple(vers[:k]) in cached for k in must):
+                    out.probe("reexecuted_because_state_was_rolled_back")
+                    out.nontrivial = True
+        out.key = hashlib.sha256(repr(history).encode()).hexdigest()[:20]
+        out.sample = {"part": "workflow", "chain": n, "consumers": consumers, "history": history}
         return out
 
     @staticmethod
